@@ -356,19 +356,20 @@ Record new_elem := mkElem {
   ne_filltr : transf
 }.
 
-(* the "for i in range(n_missing_bounds)" loop *)
-Fixpoint missing_bounds_loop (bs : bounds) (i : Z) (n : nat) : res unit :=
-  match n with
-  | O => Ok tt
-  | S m =>
-      bind (bounds_getitem bs (-1 - i)) (fun r =>
-        if negb (fst r =? snd r) then Err ELattice else missing_bounds_loop bs (i + 1) m)
+(* the dimension test (repaired in /repo 9b5a8f0): one range per base vector,
+   and only the ranges beyond the lattice dimensions must be trivial:
+     if len(domain.bounds) < n_vectors: raise LatticeError
+     for range_ in list(domain.bounds)[n_vectors:]:
+         if range_[0] != range_[1]: raise LatticeError *)
+Fixpoint padding_loop (rest : bounds) : res unit :=
+  match rest with
+  | [] => Ok tt
+  | r :: tl => if negb (fst r =? snd r) then Err ELattice else padding_loop tl
   end.
 
 Definition dimension_checks (nvec : nat) (bs : bounds) : res unit :=
-  if Nat.eqb nvec (List.length bs) then Ok tt
-  else if negb (Z.of_nat nvec =? dims bs) then Err ELattice
-  else missing_bounds_loop bs 0 (Z.to_nat (Z.of_nat nvec - Z.of_nat (List.length bs))).
+  if Nat.ltb (List.length bs) nvec then Err ELattice
+  else padding_loop (skipn nvec bs).
 
 Fixpoint fold_trcl (trcls : list transf) (cur : transf) : res transf :=
   match trcls with
